@@ -17,6 +17,14 @@ CHECKS = {
          "§5 C09", "Lean 4 proof (state-machine invariant by induction over the request list) + ast translator of allocator configuration + differential correspondence with observed set order"),
  "C14": ("proof that the allocator's outcome is invariant under permutation of the batch (List.Perm): both fail or both succeed, same free list, same occupied set, same set of new slots; whole-save determinism modulo new-slot numbering is validated across interpreters with different hash seeds through an independent slot-renumbering-invariant digest (partial: the rewrite of references and string collection order are checked by that run, not proved)",
          "§5 C14", "Lean 4 proof (permutation invariance via an order-free characterisation) + cross-process differential run"),
+ "C02": ("partial proof: for all inputs, every string reference (any id: shared, not-last, out of range, 0) is written back with an id resolving to the same text; sections keep their positions; flag words keep their defined bits and hit points are exact (C12); the whole-cycle preservation statement is kept visible (C02Full) but not proved and is false on the current tree for the recorded findings; the executable cycle model is byte-compared with the real code on every generated map and the game view is compared by an independent specification-driven reader",
+         "§5 C02", "Lean 4 lemmas about the rich-layer model (partial) + byte-exact differential correspondence of the whole cycle + independent reader oracle"),
+ "C03": ("partial proof: byte-layer fixed point for every input (C19), string references are fixed points after one cycle, pass-through sections are fixed points; full identity/idempotence statements kept visible (C03Identity, C03Idempotent), false on the current tree for the recorded findings; byte identity of editor-form maps and idempotence of every map are checked on the real code and the model on every run",
+         "§5 C03", "Lean 4 lemmas (partial) + byte-exact differential correspondence + byte-identity / second-cycle oracle"),
+ "C10": ("proof over the rich-layer model, for every decoded section list, configuration and iteration order: every pass-through section (unknown, enum-only, recognised without rich model) is emitted identical at its original index, rebuilt/added sections are appended after, and every trigger entry of an unsupported type is carried as a raw record and written back verbatim in list order; partial: position of raw entries inside a trigger after gap compaction (recorded finding) and UPUS recomputation (recorded finding)",
+         "§5 C10", "Lean 4 proof (structural induction over the section list / entry list) + differential correspondence + in-place oracle by the independent reader"),
+ "C11": ("proof over the encoder model, for every rich content: an emitted trigger has exactly 16 conditions / 64 actions / 27 player bytes or the call raises (oversize lists raise); MRGN, UPRP, UPUS and WAV tables are emitted at their mandated lengths; a written string id is 0 or resolves to exactly the string, a missing string raises KeyError; a written unit-property id is the slot of a stored equal set; partial: the whole-file statement (section order, STR offsets in bounds) rests on C08/C09 theorems and is validated by the independent structural validator on every emitted file, including authored degenerate content",
+         "§5 C11", "Lean 4 proof of encoder shape lemmas + differential correspondence + independent structural validator"),
  "C12": ("proof, for every flag codec / enumeration / the AI-script and hit-point codecs as regenerated from the source, of number->rich->number and rich->number->rich exactness on the WHOLE domain (statements over all natural numbers, proved by induction on bits / membership, not by enumeration), injectivity, and rejection of every non-member number; plus exhaustive correspondence of the model with the real helpers",
          "§5 C12", "Lean 4 proof (bit induction, finite-table obligations by decide +kernel) + ast translator of bit layouts/enums + exhaustive differential correspondence"),
  "C15": ("proof over an abstract file system that each file-writing entry point, as modelled from its regenerated call sequence, refuses with FileExistsError and leaves the file system unchanged when the destination exists without opt-in (for every file system), touches only the destination with opt-in, that every overwrite flag defaults to refuse and that the exists-guard precedes the first write; partial: the real file system and StormLib are exercised by the harness, not proved",
